@@ -1,6 +1,35 @@
 (* jsonrpsee-types wire formats: Id, SubscriptionId, ErrorObject, Request, Notification,
    InvalidRequest, Response (hand-written visitor), subscription payloads.
-   Payloads (params / result / data) are raw JSON texts, as in the library (RawValue). *)
+   Payloads (params / result / data) are raw JSON texts, as in the library (RawValue).
+
+   MAP FORM AND SEQUENCE FORM.  serde_json's `deserialize_struct` looks at the first non-whitespace byte:
+   '{' -> the visitor's visit_map, '[' -> its visit_seq, anything else -> invalid type (`de_struct` below).
+   The visitors that `#[derive(Deserialize)]` generates implement BOTH, so the derived types
+       ErrorObject                  [code, message, data]
+       Request                      [jsonrpc, id, method, params]          (extensions: #[serde(skip)], takes no slot)
+       Notification<T>              [jsonrpc, method, params]              (extensions skipped)
+       InvalidRequest               [id]
+       SubscriptionPayload<T>       [subscription, result]
+       SubscriptionPayloadError<T>  [subscription, error]
+   are also read from a JSON array holding the fields in declaration order.  visit_seq takes the elements by position;
+   EVERY non-skipped field must be present (a missing trailing Option field is `invalid_length`, there is no
+   #[serde(default)] in these types; in the map form a missing Option member is None), `null` in an Option slot is
+   None, and serde_json's `end_seq` rejects anything after the last field: the array has EXACTLY as many elements as
+   the struct has non-skipped fields.  deny_unknown_fields (ErrorObject) and duplicate-member checks have no
+   counterpart in the sequence form.  Sequence forms nest: the params of a sequence-form Notification may be a
+   sequence-form SubscriptionPayload.  All of this was measured on the compiled library (engine `wire`).
+   `Response` has a hand-written visitor with visit_map only: an array is never a Response (but its `error` member
+   is an ErrorObject, map or sequence form).  TwoPointZero / ErrorCode are hand-written scalars, Id / SubscriptionId
+   untagged enums: no sequence form.  The serialisers never write a sequence form.
+
+   Where the sequence forms are reachable in the library: the async client (elements of an array frame; `params` of a
+   subscription notification; the `error` member of a response), the HTTP client (`error` member), and
+   `Methods::raw_json_request` (serde_json::from_str::<Request> on the caller's text).  The server sniffs '{' before
+   it reads a single message and (since "fix: only JSON objects are read as batch entries") requires '{' at the head
+   of every batch entry, so Model/Server.v applies the MAP readers (`as_request` ...) directly.
+
+   Not modelled: serde_json's recursion limit (128) for the struct nesting itself (at most 2 levels here; payload
+   spans are RawValue and are skipped without a depth limit), and error MESSAGES (a failed parse is None). *)
 From JV Require Import Base.Bytes Base.Dec Base.Utf8 Json.Json Json.JsonSer Json.JsonParse.
 Local Open Scope N_scope.
 
@@ -113,6 +142,61 @@ Inductive field := FAbsent | FOne (span : bytes) | FDup.
 Definition field_of (k : bytes) (m : members) : field :=
   match get_all k m with [] => FAbsent | [v] => FOne v | _ => FDup end.
 
+(* ---------- top-level array as a list of raw element spans (Vec<&RawValue>; the sequence form of a struct) ---------- *)
+
+(* after '[' with at least one element: skip one value, expect ',' or ']'; spans have their leading whitespace dropped *)
+Fixpoint elems_loop (fuel : nat) (s : bytes) : option (list bytes * bytes) :=
+  match fuel with
+  | O => None
+  | S f =>
+    let s' := skip_ws s in
+    match skip_value (S (length s')) s' with
+    | Some (t, r) =>
+      match skip_ws r with
+      | c :: r1 =>
+        if beqb c x2c then
+          match elems_loop f r1 with Some (ts, r2) => Some (t :: ts, r2) | None => None end
+        else if beqb c x5d then Some ([t], r1)
+        else None
+      | [] => None
+      end
+    | None => None
+    end
+  end.
+
+(* ws* '[' elems ']' ws* eof *)
+Definition array_elems_fuel (fuel : nat) (s : bytes) : option (list bytes) :=
+  match skip_ws s with
+  | c :: s1 =>
+    if beqb c x5b then
+      match skip_ws s1 with
+      | c2 :: r =>
+        if beqb c2 x5d then match skip_ws r with [] => Some [] | _ :: _ => None end
+        else match elems_loop fuel s1 with
+             | Some (ts, r') => match skip_ws r' with [] => Some ts | _ :: _ => None end
+             | None => None
+             end
+      | [] => None
+      end
+    else None
+  | [] => None
+  end.
+
+Definition array_elems (s : bytes) : option (list bytes) := array_elems_fuel (S (length s)) s.
+
+(* ---------- serde_json::Deserializer::deserialize_struct ----------
+   first non-whitespace byte '{' -> visit_map on the members, '[' -> visit_seq on the elements (followed by end_seq:
+   nothing but ']' may remain), anything else -> Err(invalid_type).  A hand-written visitor without visit_seq
+   (Response) is `de_struct vmap (fun _ => None)`, i.e. just the map reader. *)
+Definition de_struct {A : Type} (vmap : members -> option A) (vseq : list bytes -> option A) (t : bytes) : option A :=
+  match skip_ws t with
+  | c :: _ =>
+    if beqb c x7b then match object_members t with Some m => vmap m | None => None end
+    else if beqb c x5b then match array_elems t with Some els => vseq els | None => None end
+    else None
+  | [] => None
+  end.
+
 (* ---------- typed field readers on a span ---------- *)
 Definition k_jsonrpc := Eval cbv in b#"jsonrpc".
 Definition k_id := Eval cbv in b#"id".
@@ -173,8 +257,26 @@ Definition parse_errobj_members (m : members) : option errobj :=
   | _, _ => None
   end.
 
-Definition parse_errobj (t : bytes) : option errobj :=
-  match object_members t with Some m => parse_errobj_members m | None => None end.
+(* visit_seq: [code, message, data], all three present; data `null` -> None *)
+Definition seq_errobj (els : list bytes) : option errobj :=
+  match els with
+  | [c; msg; d] =>
+    match parse_text c, as_str msg with
+    | Some cv, Some ms =>
+      match i32_of_json cv with
+      | Some code =>
+        match as_opt_raw d with
+        | Some od => Some {| e_code := code; e_message := ms; e_data := od |}
+        | None => None
+        end
+      | None => None
+      end
+    | _, _ => None
+    end
+  | _ => None
+  end.
+
+Definition parse_errobj (t : bytes) : option errobj := de_struct parse_errobj_members seq_errobj t.
 
 Definition ser_errobj (e : errobj) : bytes :=
   b#"{""code"":" ++ print_Z (e_code e) ++ b#",""message"":" ++ ser_str (e_message e) ++
@@ -218,12 +320,39 @@ Definition as_notification (m : members) : option (bytes * option bytes) :=
 Definition as_invalid (m : members) : option id :=
   match field_of k_id m with FOne i => parse_id i | _ => None end.
 
-Definition parse_request (t : bytes) : option request :=
-  match object_members t with Some m => as_request m | None => None end.
-Definition parse_notification (t : bytes) : option (bytes * option bytes) :=
-  match object_members t with Some m => as_notification m | None => None end.
-Definition parse_invalid (t : bytes) : option id :=
-  match object_members t with Some m => as_invalid m | None => None end.
+(* the sequence forms (visit_seq of the derived visitors): exactly the non-skipped fields, in declaration order;
+   an Option slot must be there (`null` = None) *)
+Definition seq_request (els : list bytes) : option request :=
+  match els with
+  | [j; i; me; p] =>
+    if is_two j then
+      match parse_id i, as_str me, as_opt_raw p with
+      | Some i', Some me', Some p' => Some {| rq_id := i'; rq_method := me'; rq_params := p' |}
+      | _, _, _ => None
+      end
+    else None
+  | _ => None
+  end.
+
+Definition seq_notification (els : list bytes) : option (bytes * option bytes) :=
+  match els with
+  | [j; me; p] =>
+    if is_two j then
+      match as_str me, as_opt_raw p with
+      | Some me', Some p' => Some (me', p')
+      | _, _ => None
+      end
+    else None
+  | _ => None
+  end.
+
+Definition seq_invalid (els : list bytes) : option id :=
+  match els with [i] => parse_id i | _ => None end.
+
+(* serde_json::from_slice::<Request> / <Notification<Option<&RawValue>>> / <InvalidRequest> on ANY text *)
+Definition parse_request (t : bytes) : option request := de_struct as_request seq_request t.
+Definition parse_notification (t : bytes) : option (bytes * option bytes) := de_struct as_notification seq_notification t.
+Definition parse_invalid (t : bytes) : option id := de_struct as_invalid seq_invalid t.
 
 Definition ser_request (r : request) : bytes :=
   b#"{""jsonrpc"":""2.0"",""id"":" ++ ser_id (rq_id r) ++ b#",""method"":" ++ ser_str (rq_method r) ++
@@ -267,6 +396,9 @@ Definition parse_response_members (m : members) : option response :=
   | _ => None
   end.
 
+(* the hand-written visitor has visit_map only: an array text is never a Response (this is
+   `de_struct parse_response_members (fun _ => None)`, Proofs/WireFacts.v parse_response_de_struct); its `error`
+   member is an ErrorObject and goes through parse_errobj: map OR sequence form *)
 Definition parse_response (t : bytes) : option response :=
   match object_members t with Some m => parse_response_members m | None => None end.
 
@@ -282,34 +414,57 @@ Definition ser_sub_notif (me : bytes) (sid : subid) (is_err : bool) (raw : bytes
   b#"{""jsonrpc"":""2.0"",""method"":" ++ ser_str me ++ b#",""params"":{""subscription"":" ++ ser_subid sid ++
   (if is_err then b#",""error"":" else b#",""result"":") ++ raw ++ b#"}}".
 
-(* SubscriptionPayload / SubscriptionPayloadError (derived, unknown fields ignored) *)
-Definition parse_sub_payload (key : bytes) (t : bytes) : option (subid * bytes) :=
-  match object_members t with
-  | Some m =>
-    match field_of k_subscription m, field_of key m with
-    | FOne s, FOne r =>
-      match parse_subid s, as_raw r with
-      | Some s', Some r' => Some (s', r')
-      | _, _ => None
-      end
+(* SubscriptionPayload / SubscriptionPayloadError (derived, unknown fields ignored); `key` = "result" / "error".
+   T = RawValue (not an Option): `null` is an ordinary payload *)
+Definition as_sub_payload (key : bytes) (m : members) : option (subid * bytes) :=
+  match field_of k_subscription m, field_of key m with
+  | FOne s, FOne r =>
+    match parse_subid s, as_raw r with
+    | Some s', Some r' => Some (s', r')
     | _, _ => None
     end
-  | None => None
+  | _, _ => None
   end.
 
-(* Notification<SubscriptionPayload>: jsonrpc, method, params required *)
-Definition parse_sub_notif (key : bytes) (t : bytes) : option (bytes * subid * bytes) :=
-  match object_members t with
-  | Some m =>
-    match field_of k_jsonrpc m, field_of k_method m, field_of k_params m with
-    | FOne j, FOne me, FOne p =>
-      if is_two j then
-        match as_str me, parse_sub_payload key p with
-        | Some me', Some (s, r) => Some (me', s, r)
-        | _, _ => None
-        end
-      else None
-    | _, _, _ => None
+(* [subscription, result] / [subscription, error] *)
+Definition seq_sub_payload (els : list bytes) : option (subid * bytes) :=
+  match els with
+  | [s; r] =>
+    match parse_subid s, as_raw r with
+    | Some s', Some r' => Some (s', r')
+    | _, _ => None
     end
-  | None => None
+  | _ => None
   end.
+
+Definition parse_sub_payload (key : bytes) (t : bytes) : option (subid * bytes) :=
+  de_struct (as_sub_payload key) seq_sub_payload t.
+
+(* Notification<SubscriptionPayload>: jsonrpc, method, params required; params in either form *)
+Definition as_sub_notif (key : bytes) (m : members) : option (bytes * subid * bytes) :=
+  match field_of k_jsonrpc m, field_of k_method m, field_of k_params m with
+  | FOne j, FOne me, FOne p =>
+    if is_two j then
+      match as_str me, parse_sub_payload key p with
+      | Some me', Some (s, r) => Some (me', s, r)
+      | _, _ => None
+      end
+    else None
+  | _, _, _ => None
+  end.
+
+(* [jsonrpc, method, params] *)
+Definition seq_sub_notif (key : bytes) (els : list bytes) : option (bytes * subid * bytes) :=
+  match els with
+  | [j; me; p] =>
+    if is_two j then
+      match as_str me, parse_sub_payload key p with
+      | Some me', Some (s, r) => Some (me', s, r)
+      | _, _ => None
+      end
+    else None
+  | _ => None
+  end.
+
+Definition parse_sub_notif (key : bytes) (t : bytes) : option (bytes * subid * bytes) :=
+  de_struct (as_sub_notif key) (seq_sub_notif key) t.
